@@ -38,6 +38,26 @@ TEXT = {
         technique=_PT_TECH + "; arbitrary parent-link graphs",
         text="Quiescent tables with arbitrary parent links (forests, self-loops, cycles, unlisted parents, equal/inverted start times) are compared exactly with a breadth-first reference; moving tables (events inside the scan) are checked for soundness; termination is enforced by a seam-call budget; recycled callers must raise NoSuchProcess. Sampled.",
         note=_PT_NOTE + " parents() is not judged on tables whose reference parent chain is endless (self-parent / equal-age cycle): the statement promises termination for children() only.", ref="DESIGN.md section 9, C05"),
+    "C07": dict(
+        technique="deterministic simulation: seeded histories of per-CPU tick tables over a virtual clock (blocking calls sleep in virtual time while tick events fire); exact-rational reference oracle",
+        text="Seeded histories of /proc/stat tick tables (sub-second totals, zero deltas, fields going backwards, 7-10 kernel fields, 1-8 CPUs with holes) driven through cpu_times/cpu_percent/cpu_times_percent (blocking and non-blocking, percpu or not) and Process.cpu_percent; the simulator records which /proc/stat version every read returned, and the oracle recomputes each result with fractions from exactly the two samples the call must have used. Sampled.",
+        note="Trusted base: SimKernel's /proc/stat renderer and virtual clock, the seam substitution. Rows where the guest delta exceeds the user delta are only range-checked. The per-thread sample clause is exercised with real interleavings by the threads engine.",
+        ref="DESIGN.md section 9, C07"),
+    "C10": dict(
+        technique="deterministic simulation: seeded histories of raw counter snapshots against a sequential reference model of the nowrap statement",
+        text="Seeded histories of raw /proc/net/dev and /proc/diskstats snapshots (32/64-bit wraps, repeated wraps, resets, devices leaving/returning, all devices gone, new devices) with net_io_counters/disk_io_counters/cache_clear in any order and alternating nowrap; every result must equal a 30-line reference model (raw + sum of pre-decrease values per continuous presence), be monotone per device, and the two functions must not influence one another. Sampled.",
+        note="Trusted base: the reference model (sim/engines/counters.py WrapModel), SimKernel table renderers. perdisk/pernic fixed per run.",
+        ref="DESIGN.md section 9, C10"),
+    "C14": dict(
+        technique="deterministic simulation: descriptor-table events injected at chosen OS access indexes of open_files() over a simulated /proc/<pid>/fd",
+        text="Per seeded descriptor table a fault-free run numbers the accesses of open_files(); seeded runs then close/open descriptors (and sometimes kill or zombify the process) right before chosen accesses. For a live process the call must return; every entry must agree with the descriptor's kernel state (path, fd, offset, flags, mode string); every regular-file descriptor that stayed open must be listed once. num_fds()/io_counters() are compared with the table/the six counters. Sampled.",
+        note="Trusted base: SimKernel fd/fdinfo/io renderers. Mode string for access mode 3 is not judged; deleted targets judged for soundness only.",
+        ref="DESIGN.md section 9, C14"),
+    "C15": dict(
+        technique="deterministic simulation on a discrete-event virtual clock: exit instants placed relative to psutil's poll schedule and the deadline, EINTR injected at chosen waitpid calls",
+        text="wait()/wait_procs() run on a virtual clock where time only moves through psutil's own sleep() calls; the exit (or reap) instant of each process is placed before the call, between/at poll instants, within the last poll interval, exactly at, just after and long after the deadline, or never; EINTR is delivered to chosen waitpid calls. The oracle reads every (virtual time, waitpid/kill/sleep/clock) record: status, not-early, cached, timeout legitimacy, one-poll-late, poll bounds, partition/callback rules. Sampled over ~2.4k distinct cells per quick run.",
+        note="Trusted base: SimKernel waitpid/kill(0) semantics and the virtual clock. System calls take zero virtual time; a jitter configuration exercises overshooting sleeps with only jitter-proof clauses. No PID reuse.",
+        ref="DESIGN.md section 9, C15"),
     "C03": dict(
         technique="deterministic simulation: seeded worlds + enumerated fault injection at every OS access index (fork-per-run, trace digest, ddmin-shrunk replay files)",
         text="For every seeded world, every Process query method is run once fault-free to number its OS accesses, then once per (pid-related access k) x {process vanishes, turns zombie, EACCES, EPERM} plus sampled two-fault sequences; each outcome must be a well-shaped value or NoSuchProcess/ZombieProcess/AccessDenied with the right cause and pid, and after a vanish every getter must raise NoSuchProcess. Exhaustive in (method, access, fault kind) per world, sampled over worlds: evidence, not proof.",
